@@ -1,8 +1,52 @@
-"""C06 part (tie T): garbled / injected / replayed datagrams never reach frame processing; each packet at most once."""
+"""C06 part (tie T): garbled / injected / replayed datagrams never reach frame processing; each packet at most once;
+forged traffic never costs an established connection its life."""
 import e2e
 import e2e_props
+
+
+def fam_forgery_paths(rng, i):
+    """unauthenticatable datagrams that carry the connection's destination id arrive from many different source addresses
+    (an off-path attacker spraying spoofed sources) before and while the genuine client changes its address (NAT
+    rebinding): path slots taken by packets that never authenticate must not starve the genuine migration"""
+    d = rng.choice([5, 20])
+    t1 = rng.choice([300, 600, 1000])
+    p = {
+        "seed": rng.randrange(1, 2**40), "bidi": 1, "uni": rng.choice([0, 1]), "suni": rng.choice([0, 1]),
+        "size": rng.choice([300000, 800000]), "chunk": 20000, "delay_ms": d, "deadline_ms": 120000,
+        "spoof_pm": rng.choice([300, 600, 1000]), "spoof_addrs": rng.choice([9, 12, 20, 40]), "spoof_garbage": 1,
+        "rebind_at_ms": ",".join(str(t) for t in ([t1] if i % 2 == 0 else [t1, t1 + rng.choice([300, 700])])),
+        "rebind_ip": rng.choice([0, 1]),
+    }
+    if i % 3 == 2:
+        p["spoof_garbage"] = 0      # genuine (old, duplicate) packets from the spoofed addresses instead
+    return e2e_props._nz(p)
+
+
+e2e_props.FAMILIES.setdefault("forgery-paths", fam_forgery_paths)
+
+
+def o_c06_survives(tr):
+    """forged datagrams only (no loss, no blackhole): the connection must carry the whole transfer"""
+    bad = []
+    for r in tr.of("ev"):
+        if r.name == "connectivity:connection_closed" and not __import__("re").search(r"error: (Closed|Application)", r.text):
+            bad.append(("e2e:c06:connection-lost-after-forgery", f"endpoint {r.ep} lost the connection although only forged datagrams interfered: {r.text[:200]}"))
+            break
+    errs = [r for r in tr.of("app") if r.what == "err"]
+    if errs and not bad:
+        bad.append(("e2e:c06:connection-lost-after-forgery", f"application error although only forged datagrams interfered: {errs[0].ep} {' '.join(errs[0].args)[:200]}"))
+    return bad
 
 
 def run(ctx):
     ctx.assumptions.append('tie T samples real client+server runs on the deterministic IO provider with an adversarial network; it validates the model/oracles, it is not the proof')
     e2e_props.run_family(ctx, 'forgery', [e2e.o_c06, e2e.o_c01], 48, 1500)
+    spoofed = {"n": 0}
+
+    def nt(tr, s):
+        k = sum(1 for w in tr.of("wire") if w.action == "spoof")
+        spoofed["n"] += k
+        return k >= 8 and s["end"] == "ok" and s["bytes_read"] > 0
+
+    e2e_props.run_family(ctx, 'forgery-paths', [e2e.o_c06, e2e.o_c01, o_c06_survives], 18, 300, nontrivial=nt)
+    ctx.oblige("coverage", f"forgery-paths: {spoofed['n']} spoofed-source datagrams were delivered to the server", spoofed["n"] >= 100, "the family no longer sprays spoofed sources")
